@@ -97,7 +97,7 @@ CHECKS = {
             "DESIGN.md §4 C05"),
     "C06": ("model_checking", E1,
             "explicit-state BFS (depth-bounded) over the kitchen-sink schema; every reachable state x every delete; ValidateDeleted + byte scan + complete image vs reference model",
-            "Histories up to the depth bound over a schema combining every index/constraint/link type and both child-store kinds are enumerated; after every delete the repository's own oracle, a byte-level search for the id and the full reference image (which cannot contain the id) are checked; re-creation is part of the alphabet so 'as if never existed' is the model comparison on successor states; a second pass runs <any operation>; <delete> inside one transaction from every state up to depth 3/4.",
+            "Histories up to the depth bound over a schema combining every index/constraint/link type and both child-store kinds are enumerated (plus a schema whose child stores own indexes and a link collection, with the extended child registered before and after the plain one); after every delete the repository's own oracle, a byte-level search for the id and the full reference image (which cannot contain the id) are checked; re-creation is part of the alphabet so 'as if never existed' is the model comparison on successor states; a second pass runs <any operation>; <delete> inside one transaction from every state up to depth 3/4.",
             "Depth bound 5 (quick) / transition and state caps (thorough) - not a closure; reported in evidence as exhaustive:false with the depth completed.",
             "DESIGN.md §4 C06"),
     "C15": ("model_checking", E1,
